@@ -601,3 +601,126 @@ def minimise(area, c_exe, m_exe, script, enabled=None):
                 changed = True
                 break
     return cur
+
+
+# ---------------------------------------------------------------------------
+# translator tie (tools/c2lean.py): regenerate, re-check the equalities
+
+
+def translator_tie(chk, area, tie_module, tie_theorems):
+    """Regenerate the Lean translation of the loop-free C functions of `area`
+    from REPO's current source, compile it in a scratch directory that shadows
+    the committed Cstl/Gen copy, and re-check the fixed tie theorems
+    (`generated = hand-written model`) against it, with the axiom audit."""
+    import c2lean
+    a = c2lean.AREAS[area]
+    try:
+        txt, report = c2lean.translate(area, REPO)
+    except c2lean.Unsupported as e:
+        for t in tie_theorems:
+            chk.theorems[t] = (False, "translator could not read the source: %s" % e)
+        return
+    chk.extra.setdefault("translator", {})[area] = report
+    d = mktmp("tie")
+    # scratch module GenTmp.<X>: same namespace and definitions as the committed
+    # Cstl.Gen.<X>, but built from the current source; the tie file's import is
+    # redirected to it
+    gdir = os.path.join(d, "GenTmp")
+    os.makedirs(gdir)
+    gfile = os.path.join(gdir, a["module"] + ".lean")
+    with open(gfile, "w") as fh:
+        fh.write(txt)
+    committed = os.path.join(LEAN, "Cstl", "Gen", a["module"] + ".lean")
+    if os.path.exists(committed) and open(committed).read() != txt:
+        chk.notes.append("translation of src/%s differs from the committed copy lean/Cstl/Gen/%s.lean" % (a["src"], a["module"]))
+    r = sh(["lake", "env", "lean", "--root=" + d, "-o", gfile[:-5] + ".olean", gfile], cwd=LEAN)
+    if r.returncode != 0:
+        for t in tie_theorems:
+            chk.theorems[t] = (False, "generated translation does not elaborate: " + r.stdout[-400:])
+        return
+    base_path = sh(["lake", "env", "printenv", "LEAN_PATH"], cwd=LEAN).stdout.strip()
+    tie_src = open(os.path.join(LEAN, tie_module.replace(".", "/") + ".lean")).read()
+    tie_src = tie_src.replace("import Cstl.Gen.%s" % a["module"], "import GenTmp.%s" % a["module"])
+    tfile = os.path.join(d, "TieCheck.lean")
+    with open(tfile, "w") as fh:
+        fh.write(tie_src)
+        fh.write("\n")
+        for t in tie_theorems:
+            fh.write("#print axioms %s\n" % t)
+    env = dict(os.environ, LEAN_PATH=d + ":" + base_path)
+    r = sh(["lean", "--root=" + d, tfile], cwd=LEAN, env=env)
+    out = r.stdout
+    res = {t: (False, "tie theorem does not check against the current source's translation") for t in tie_theorems}
+    for m in re.finditer(r"'([^']+)' depends on axioms: \[([^\]]*)\]", out, flags=re.S):
+        axs = [x.strip() for x in m.group(2).replace("\n", " ").split(",") if x.strip()]
+        if m.group(1) in res:
+            res[m.group(1)] = (all(x in ALLOWED_AXIOMS for x in axs), "axioms: " + ", ".join(axs))
+    for m in re.finditer(r"'([^']+)' does not depend on any axioms", out):
+        if m.group(1) in res:
+            res[m.group(1)] = (True, "axioms: none")
+    errs = [l for l in out.split("\n") if "error" in l]
+    if errs:
+        # a failed proof still gets a (sorry-free?) constant: be strict, mark the theorems whose
+        # declaration line is mentioned in an error
+        src_lines = tie_src.split("\n")
+        for e in errs:
+            m = re.search(r"TieCheck\.lean:(\d+):", e)
+            if not m:
+                continue
+            ln = int(m.group(1))
+            # find the enclosing theorem
+            for k in range(min(ln, len(src_lines)) - 1, -1, -1):
+                mm = re.match(r"theorem\s+(\S+)", src_lines[k])
+                if mm:
+                    ns = re.search(r"namespace\s+(\S+)", tie_src)
+                    full = (ns.group(1) + "." if ns else "") + mm.group(1)
+                    if full in res:
+                        res[full] = (False, "does not check against the current translation: " + e.strip()[:300])
+                    break
+    chk.theorems.update(res)
+
+
+def shrink_failures(chk, area, c_exe, oracle, enabled=None, limit=3):
+    """delta-minimise the first few failing inputs: shortest failing prefix,
+    then drop single operations while the independent oracle still rejects
+    the implementation's output and the script stays inside the domain."""
+    def fails(sc):
+        if enabled is not None and not enabled(sc):
+            return None
+        outs, _ = run_exe(c_exe, [sc], env=HARNESS_ENV)
+        w = oracle(chk.prop, sc, outs[0])
+        return (w, outs[0]) if w else None
+    done = []
+    # prefer short witnesses
+    order = sorted(range(len(chk.oracle_failures)), key=lambda i: len(chk.oracle_failures[i]["script"]))
+    for i in order[:limit]:
+        f = chk.oracle_failures[i]
+        cur = list(f["script"])
+        best = fails(cur)
+        if best is None:
+            continue
+        lo, hi = 1, len(cur)
+        while lo < hi:                      # shortest failing prefix
+            mid = (lo + hi) // 2
+            if fails(cur[:mid]):
+                hi = mid
+            else:
+                lo = mid + 1
+        if fails(cur[:lo]):
+            cur = cur[:lo]
+        changed = True
+        while changed and len(cur) > 1:
+            changed = False
+            for k in range(len(cur) - 2, -1, -1):
+                cand = cur[:k] + cur[k + 1:]
+                if fails(cand):
+                    cur = cand
+                    changed = True
+                    break
+        r = fails(cur)
+        if r:
+            done.append({"area": f["area"], "script": cur, "what": r[0], "impl_output": r[1],
+                         "minimised_from": len(f["script"])})
+    if done:
+        rest = [f for j, f in enumerate(chk.oracle_failures) if j not in order[:limit]]
+        chk.oracle_failures = done + rest
